@@ -638,7 +638,11 @@ func (ex *Exec) sortSlice(fr *Frame, st *State, args []Val, call *ssa.Call, stab
 	if !ok {
 		if t, isT := iv.V.(*Term); isT && isSliceSort(t.Sort) {
 			// sorting a slice value that is not backed by an object we can update
-			ex.unsupp("sort.Slice on a slice term (no backing object) in %s", ex.fnPrefix)
+			var stk []string
+			for _, f := range ex.callStack {
+				stk = append(stk, f.Name())
+			}
+			ex.unsupp("sort.Slice on a slice term (no backing object) in %s via %v (spec=%d rec=%d)", ex.fnPrefix, stk, ex.specMode, len(ex.recorders))
 		}
 		return one(nil)
 	}
